@@ -29,7 +29,8 @@ func ruleSettersCalled(c *Ctx, rule string, pk *packages.Package, min int) {
 			case *ast.SelectorExpr:
 				// method values
 				if fn, ok := info.Uses[x.Sel].(*types.Func); ok {
-					if _, isCall := p.Parent(x).(*ast.CallExpr); !isCall {
+					// a method value or method expression that is not itself the callee of a call (handed on as a value)
+					if pc, isCall := p.Parent(x).(*ast.CallExpr); !isCall || ast.Unparen(pc.Fun) != ast.Expr(x) {
 						called[fn]++
 					}
 				}
